@@ -93,6 +93,25 @@ pub fn build_pool(ctx: &Ctx, rng: &mut Rng, cache: &mut TreeCache, tool: Option<
             }
         }
     }
+    // in a build with reduced limits (stage `constrained`): keys that use every level's limit to
+    // the full (heights capped at H5 for cost, smallest allowed W per level), signed by the library
+    if let Some((nlev, hs, ws)) = crate::common::build_limits() {
+        for alg in model::ALL_ALGS {
+            for len in 1..=nlev.min(8) {
+                let lv: Vec<Level> = (0..len).map(|i| Level { h: if hs[i] >= 5 { 5 } else { crate::common::h2() }, w: ws[i] }).collect();
+                let seed = rng.bytes(alg.n());
+                if let Out::Ok(kp) = libcall::keygen(alg, &lv, &seed, None) {
+                    let total = hss::total_leaves(&lv) as u64;
+                    for c in [0u64, total - 1] {
+                        let msg = rng.bytes(17);
+                        if let Out::Ok(sig) = libcall::sign_bytes(alg, &hss::make_blob(c, &lv, &seed), &msg, Cb::Accept, None).result {
+                            pool.push(Triple { alg, levels: lv.clone(), seed: seed.clone(), counter: c, msg, sig, pk: kp.vk.clone(), origin: "lib" });
+                        }
+                    }
+                }
+            }
+        }
+    }
     // signatures of keys whose trees could never be generated (heights 15, 20, 25; several tall
     // levels): valid to any verifier, built by running the verification recurrence forwards
     for alg in model::ALL_ALGS {
